@@ -192,7 +192,9 @@ def run(prog: Program, _no_c10: bool = False) -> Results:
             ok = bool(e_not) and bool(attempts) and cfg.all_paths_pass(n, cut_edges=e_not + e_noscopes, cut_nodes=attempts)
             r2.ob(ok, {"site": key, "overwrite": norm(n.ast), "assign_through_attempt": [norm(t.ast)[:60] for t in attempts]})
             if not ok:
-                how = sorted({callee(d.value) for ds in by_path.values() for d in ds if isinstance(d, ast.Assign) and isinstance(d.value, ast.Call)}) or ["loop/param"]
+                # how the binding was located: the lookup functions (constructors of fresh bindings are not lookups)
+                how = sorted({callee(d.value) for ds in by_path.values() for d in ds if isinstance(d, ast.Assign) and isinstance(d.value, ast.Call)
+                              and not (callee(d.value) or "")[:1].isupper()}) or ["loop/param"]
                 res.add("R-C11-2", (key, "overwrite without assign-through", "located by " + ",".join(str(h) for h in how)), f.loc(n.ast),
                         f"{key}: `{norm(n.ast)}` overwrites a binding located by path without first trying to assign through when its "
                         f"value is a reference: `set a.b 2` on `let v = 1; in {{ a.b = v; }}` replaces the reference instead of updating `v`")
